@@ -699,3 +699,51 @@ Section ReReadAbs.
       rewrite Hrest. f_equal. lia.
   Qed.
 End ReReadAbs.
+
+(* the interface of the section as one closed predicate: what re_read needs from sbuf_make / sbuf_chr / sbuf_done *)
+Definition sbuf_iface (call : nat -> list val -> mem -> res (val * mem)) (m0 : mem) (p : nat)
+    (Rep : mem -> list Z -> Prop) (BOUND : nat) : Prop :=
+  (exists m1, call F_sbuf_make [] m0 = Ok (VPtr p 0, m1) /\ Rep m1 [] /\ Frame m0 m1) /\
+  (forall m cs c, Rep m cs -> Frame m0 m -> 0 <= c <= 255 -> (length cs < BOUND)%nat ->
+     exists m', call F_sbuf_chr [VPtr p 0; VInt c] m = Ok (VUndef, m') /\ Rep m' (cs ++ [wrap I8 c]) /\ Frame m0 m') /\
+  (forall m cs bb blk, Rep m cs -> (bb < length m0)%nat -> Rep (upd m bb blk) cs) /\
+  (forall m cs, Rep m cs ->
+     exists bo m' tail, call F_sbuf_done [VPtr p 0] m = Ok (VPtr bo 0, m') /\
+       nth_error m' bo = Some (map VInt cs ++ VInt 0 :: tail) /\ (length m0 <= bo)%nat /\
+       forall b', (b' < length m0)%nat -> nth_error m' b' = nth_error m b').
+
+(* THE THEOREM about the scan of re_read (relative to the string buffer): for every NUL-free string, every offset o where
+   *src points, a delimiter byte below 128: NULL when *src is at the terminator (memory unchanged); otherwise the returned
+   block starts with the cells of the model's text followed by the terminator, *src is moved to the offset o' with
+   skipn o' s = the model's rest (behind the closing delimiter, or at the terminator), every older block other than the
+   one of *src is unchanged -- and every load was inside the string and its terminator, no fuel ran out. *)
+Theorem re_read_scan call m0 p Rep BOUND : sbuf_iface call m0 p Rep BOUND ->
+  forall b (s : bytes) bp op (blk : block) o fuel,
+  str_at m0 b s -> nonul s ->
+  nth_error m0 bp = Some blk -> 0 <= op -> nth_error blk (Z.to_nat op) = Some (VPtr b (Z.of_nat o)) ->
+  (o <= length s)%nat -> (nthb s o < 128)%N -> (length s <= BOUND)%nat -> (length s < fuel)%nat ->
+  match SubstDefs.re_read (skipn o s) with
+  | None => exec call fuel (fn_body cf_re_read) (mkst [VPtr bp op; VUndef; VUndef; VUndef] m0)
+            = OReturn (VInt 0) (mkst [VPtr bp op; VUndef; VPtr b (Z.of_nat o + 1); VInt 0] m0)
+  | Some (txt, rest) =>
+      exists bo m' tail o' st',
+      exec call fuel (fn_body cf_re_read) (mkst [VPtr bp op; VUndef; VUndef; VUndef] m0) = OReturn (VPtr bo 0) st' /\
+      memm st' = m' /\
+      nth_error m' bo = Some (map cell txt ++ VInt 0 :: tail) /\ (length m0 <= bo)%nat /\
+      nth_error m' bp = Some (upd blk (Z.to_nat op) (VPtr b (Z.of_nat o'))) /\ (o' <= length s)%nat /\ skipn o' s = rest /\
+      forall b', (b' < length m0)%nat -> b' <> bp -> nth_error m' b' = nth_error m0 b'
+  end.
+Proof.
+  intros (Hm & Hc & Hu & Hd) b s bp op blk o fuel Hs Hnn. exact (re_read_abs call m0 p Rep BOUND Hm Hc Hu Hd b s Hs Hnn bp op blk o fuel).
+Qed.
+
+(* running the translated re_read (with the translated sbuf.c under it) on a concrete command string: block 0 holds the
+   string, block 1 the pointer *src; the result is the returned string (cells up to the terminator) and the new *src *)
+Fixpoint cells_to_nul (l : list val) : list Z :=
+  match l with VInt 0 :: _ => [] | VInt z :: r => z :: cells_to_nul r | _ => [] end.
+Definition rr_run (s : bytes) (fuel : nat) : option (option (list Z) * val) :=
+  match callf cprog fuel 5 F_re_read [VPtr 1 0] [cstr_block (zb s); [VPtr 0 0]] with
+  | Ok (VPtr bo 0, m') => Some (Some (cells_to_nul (nth bo m' [])), nth 0 (nth 1 m' []) VUndef)
+  | Ok (VInt 0, m') => Some (None, nth 0 (nth 1 m' []) VUndef)
+  | _ => None
+  end.
